@@ -741,8 +741,12 @@ impl Property for C11 {
                     }
                     prev_line_fallible = e.steps[start..=end].iter().any(|s| s.narrows.is_some());
                     if matches!(expected, Out::Value(s) if s == "[]") || e.steps[start..=end].iter().any(|s| s.tailcall) {
-                        if !any_nil_before && start > 0 {
-                            frozen = Some((start, e.prefix_vars[start - 1].clone()));
+                        if !any_nil_before {
+                            // the step of this line at which the one-program form stops
+                            let stop = (start..=end).find(|k| e.steps[*k].tailcall || matches!(&e.prefix_values[*k], Out::Value(s) if s == "[]")).unwrap_or(start);
+                            if stop > 0 {
+                                frozen = Some((stop, e.prefix_vars[stop - 1].clone()));
+                            }
                         }
                         any_nil_before = true;
                     }
@@ -764,11 +768,11 @@ impl Property for C11 {
                             }
                             match got.iter().find(|t| t.0 == *n) {
                                 None => {
-                                    v.push(Violation::new("C11", "variables", "lost-after-nil-line", format!("variable {n} (= {val} before the line at step {from} that evaluated to nil) is no longer listed"), r.steps));
+                                    v.push(Violation::new("C11", "variables", "lost-after-nil-line", format!("variable {n} (= {val} before step {from}, at which its line evaluated to nil) is no longer listed"), r.steps));
                                     return v;
                                 }
                                 Some((_, _, gval)) if norm_fn(gval) != norm_fn(val) => {
-                                    v.push(Violation::new("C11", "variables", "changed-after-nil-line", format!("variable {n} was {val} before the line at step {from} that evaluated to nil and nothing has rebound it since, but the session now reports {gval}"), r.steps));
+                                    v.push(Violation::new("C11", "variables", "changed-after-nil-line", format!("variable {n} was {val} before step {from}, at which its line evaluated to nil, and nothing has rebound it since, but the session now reports {gval}"), r.steps));
                                     return v;
                                 }
                                 _ => {}
